@@ -8,7 +8,7 @@ U64_MAX = G.U64_MAX
 OPN = {0: "clock", 1: "deposit", 2: "withdraw", 3: "borrow", 4: "repay", 7: "close_balance", 10: "accrue",
        16: "collect_fees", 17: "liquidate", 18: "bankruptcy", 19: "set_price",
        30: "fixture_risk_admin", 31: "fixture_bank_flags",
-       32: "collect_fees_foreign_ata"}
+       32: "collect_fees_foreign_ata", 34: "borrow_without_risk_accounts", 35: "withdraw_without_risk_accounts"}
 HB_EXTRA = 13  # tokens after the 38 bankops tokens, before e-mode entries
 
 
@@ -57,7 +57,7 @@ def gen_hbank(rng, now, kind="mixed"):
     return toks + extra, {"dec": toks[11], "price": price, "awi": awi, "lwi": lwi, "tag": toks[10], "tier": tier}
 
 
-AMT_POS = {1: 3, 2: 3, 3: 3, 4: 3, 17: 5}
+AMT_POS = {1: 3, 2: 3, 3: 3, 4: 3, 17: 5, 34: 3, 35: 3}
 
 
 def clamp_op(o):
@@ -252,6 +252,12 @@ def gen_case_scenario(rng, max_ops=26):
             ops.append([4, a, d, rng.choice([1, max(1, bamt // 2), bamt, bamt + 1, bamt * 2]), allf])
         elif r < 0.81:
             allf = 1 if rng.random() < 0.3 else 0
+            if rng.random() < 0.12:
+                # the same instruction with its risk (bank / oracle) accounts omitted
+                if rng.random() < 0.5:
+                    ops.append([35, a, c, rng.choice([1, max(1, camt // 10), max(1, camt // 2), camt]), allf])
+                else:
+                    ops.append([34, a, d, rng.choice([1, max(1, bamt // 10), bamt])])
             ops.append([2, a, c, rng.choice([1, max(1, camt // 10), max(1, camt // 2), camt]), allf])
         elif r < 0.86:
             ops.append([16, rng.randrange(nb)])
@@ -292,7 +298,7 @@ def gen_case_scenario(rng, max_ops=26):
 
 
 # ---------------------------------------------------------------------------------------------
-OPLEN = {0: 2, 1: 5, 2: 5, 3: 4, 4: 5, 7: 3, 10: 2, 16: 2, 17: 6, 18: 3, 19: 3, 30: 2, 31: 3, 32: 3}
+OPLEN = {0: 2, 1: 5, 2: 5, 3: 4, 4: 5, 7: 3, 10: 2, 16: 2, 17: 6, 18: 3, 19: 3, 30: 2, 31: 3, 32: 3, 34: 4, 35: 5}
 
 
 def parse_case(line):
